@@ -2,6 +2,9 @@ import AL.Model.ParseWf
 import AL.Model.Rules
 import AL.Model.RuleExpr
 import AL.Model.CallMeta
+import AL.Model.ProjCall
+import AL.Model.ProjLint
+import AL.Model.ActionDecode
 import Driver.Util
 /-
   `parsewf <numbers> <node>`: the document node as an S-expression
@@ -253,6 +256,158 @@ def handleCallMeta : List String → String
         | some _ => if AL.CallMeta.docHypB cfg n then "1" else "0"
         | none => "na"
       s!"file={f} ast={a} diags={(parse cfg n).2.length} hyp={hyp}"
+    | none => "bad-op"
+  | _ => "bad-op"
+
+end Driver.ParseWfD
+
+namespace Driver.ParseWfD
+open AL.Yaml AL.Ast AL.PW Driver
+
+/-! ### the project case: `lintwfp`, `exprwfp` -/
+
+def listOf (e : SExp) : Option (List SExp) :=
+  match e with
+  | .atom "E" => some []
+  | .list l => some l
+  | _ => none
+
+def tyOfAtom : String → Option AL.CallMeta.Ty
+  | "any" => some .any | "bool" => some .bool | "number" => some .number | "string" => some .string | _ => none
+
+def metaOf : SExp → Option AL.CallMeta.Meta
+  | .list [ins, secs, outs] => do
+    let i ← (← listOf ins).mapM fun e => match e with
+      | .list [id, name, req, ty] => do
+        pure ((← id.str?), (⟨← name.str?, (← req.atom?) = "1", ← tyOfAtom (← ty.atom?)⟩ : AL.CallMeta.Input))
+      | _ => none
+    let s ← (← listOf secs).mapM fun e => match e with
+      | .list [id, name, req] => do pure ((← id.str?), (⟨← name.str?, (← req.atom?) = "1"⟩ : AL.CallMeta.Secret))
+      | _ => none
+    let o ← (← listOf outs).mapM fun e => match e with
+      | .list [id, name] => do pure ((← id.str?), (← name.str?))
+      | _ => none
+    pure { inputs := i, secrets := s, outputs := o }
+  | _ => none
+
+def b1 (e : SExp) : Option Bool := (e.atom?).map (· = "1")
+
+def actionMetaOf : SExp → Option AL.ProjAction.ActionMeta
+  | .list [name, desc, icon, iconKnown, color, colorKnown,
+           .list [using_, main, pre, preIf, post, postIf, image, preEp, ep, postEp, stepsNil, stepsNonEmpty, argsNil, envNil],
+           ins, outs, dir, path] => do
+    let i ← (← listOf ins).mapM fun e => match e with
+      | .list [id, nm, req] => do pure ((← id.str?), (← nm.str?), (← b1 req))
+      | _ => none
+    let o ← (← listOf outs).mapM fun e => match e with
+      | .list [id, nm] => do pure ((← id.str?), (← nm.str?))
+      | _ => none
+    pure { name := ← name.str?, description := ← desc.str?, icon := ← icon.str?, iconKnown := ← b1 iconKnown,
+           color := ← color.str?, colorKnown := ← b1 colorKnown,
+           runs := { using_ := ← using_.str?, main := ← main.str?, pre := ← pre.str?, preIf := ← preIf.str?, post := ← post.str?,
+                     postIf := ← postIf.str?, image := ← image.str?, preEntrypoint := ← preEp.str?, entrypoint := ← ep.str?,
+                     postEntrypoint := ← postEp.str?, stepsNil := ← b1 stepsNil, stepsNonEmpty := ← b1 stepsNonEmpty,
+                     argsNil := ← b1 argsNil, envNil := ← b1 envNil },
+           inputs := i, outputs := o, dir := ← dir.str?, path := ← path.str? }
+  | _ => none
+
+/-- `(hasProject, ((spec, a | (b,dir) | <metadata>) …), ((dir,file) … that do not exist), ((image,base) …))` -/
+def actionEnvOf : SExp → Option AL.ProjAction.Env
+  | .list [hp, specs, missing, bases] => do
+    let table ← (← listOf specs).mapM fun e => match e with
+      | .list [spec, .atom "a"] => do pure ((← spec.str?), AL.ProjAction.OnDisk.absent)
+      | .list [spec, .list [.atom "b", dir]] => do pure ((← spec.str?), AL.ProjAction.OnDisk.broken (← dir.str?))
+      | .list [spec, m] => do pure ((← spec.str?), AL.ProjAction.OnDisk.ok (← actionMetaOf m))
+      | _ => none
+    let miss ← (← listOf missing).mapM fun e => match e with
+      | .list [d, f] => do pure ((← d.str?), (← f.str?))
+      | _ => none
+    let bs ← (← listOf bases).mapM fun e => match e with
+      | .list [f, b] => do pure ((← f.str?), (← b.str?))
+      | _ => none
+    pure { hasProject := (← hp.atom?) = "1"
+           disk := fun spec => match table.find? (·.1 = spec) with | some e => e.2 | none => .absent
+           fileExists := fun d f => !(miss.any fun e => e.1 = d && e.2 = f)
+           baseName := fun f => match bs.find? (·.1 = f) with | some e => e.2 | none => f }
+  | _ => none
+
+/-- `(hasProject, self, ((spec, m | b | <interface>) …))` -/
+def envOf : SExp → Option AL.ProjCall.Env
+  | .list [hp, self, specs] => do
+    let selfSpec : Option String ← match self with
+      | .atom "N" => some none
+      | e => (e.str?).map some
+    let table ← (← listOf specs).mapM fun e => match e with
+      | .list [spec, .atom "m"] => do pure ((← spec.str?), AL.ProjCall.OnDisk.missing)
+      | .list [spec, .atom "b"] => do pure ((← spec.str?), AL.ProjCall.OnDisk.broken)
+      | .list [spec, m] => do pure ((← spec.str?), AL.ProjCall.OnDisk.ok (← metaOf m))
+      | _ => none
+    pure { hasProject := (← hp.atom?) = "1", self := selfSpec
+           disk := fun spec => match table.find? (·.1 = spec) with
+             | some e => e.2
+             | none => .missing }
+  | _ => none
+
+/-- `lintwfp <numbers> <bad urls> <env> <action env> <node>`: `lintwf` for a file linted inside a project -/
+def handleLintP : List String → String
+  | [nums, urls, env, aenv, node] =>
+    let ns : Option (List Num) := match readSExp nums with
+      | some (.atom "E") => some []
+      | some (.list l) => l.mapM numOf
+      | _ => none
+    let bad : Option (List String) := match readSExp urls with
+      | some (.list l) => l.mapM SExp.str?
+      | _ => none
+    match ns, bad, (readSExp env) >>= envOf, (readSExp aenv) >>= actionEnvOf, (readSExp node) >>= nodeOf with
+    | some ns, some bad, some env, some aenv, some n =>
+      let isNum : String → Bool := fun s => match ns.find? (·.value = s) with
+        | some x => (match x.float with | .err => false | _ => true)
+        | none => false
+      ";".intercalate ((AL.ProjLint.lint (cfgOf ns) isNum (fun u => !bad.contains u) { calls := env, actions := aenv } n).map diagS)
+    | _, _, _, _, _ => "bad-op"
+  | _ => "bad-op"
+
+/-- `exprwfp <numbers> <env> <action env> <node>`: `exprwf` for a file linted inside a project -/
+def handleExprP : List String → String
+  | [nums, env, aenv, node] =>
+    let ns : Option (List Num) := match readSExp nums with
+      | some (.atom "E") => some []
+      | some (.list l) => l.mapM numOf
+      | _ => none
+    match ns, (readSExp env) >>= envOf, (readSExp aenv) >>= actionEnvOf, (readSExp node) >>= nodeOf with
+    | some ns, some env, some aenv, some n =>
+      let cfg := cfgOf ns
+      let isNum : String → Bool := fun s => match ns.find? (·.value = s) with
+        | some x => (match x.float with | .err => false | _ => true)
+        | none => false
+      let ds := AL.ProjLint.exprRule { calls := env, actions := aenv } cfg.lower isNum (parse cfg n).1
+      let esc (a : String) : String := (a.replace "\n" "\\n").replace "\r" "\\r"
+      let codes := ds.map fun d => d.code ++ "(" ++ ",".intercalate (d.args.map fun a => hexStr (esc a)) ++ ")"
+      ";".intercalate (codes.foldr insertStr [])
+    | _, _, _, _ => "bad-op"
+  | _ => "bad-op"
+
+end Driver.ParseWfD
+
+namespace Driver.ParseWfD
+open AL.Yaml AL.Ast AL.PW Driver
+
+/-- `actionmeta <node>`: what `action.yml` (its document node) decodes to. Answer: the canonical form of the metadata,
+`error` or `unsupported` -/
+def handleActionMeta : List String → String
+  | [node] =>
+    match (readSExp node) >>= nodeOf with
+    | some n =>
+      match AL.ActionDecode.fromDoc (cfgOf []) n with
+      | .error .unsupported => "unsupported"
+      | .error _ => "error"
+      | .ok m =>
+        let r := m.runs
+        let rs := ",".intercalate [hexStr r.using_, hexStr r.main, hexStr r.pre, hexStr r.preIf, hexStr r.post, hexStr r.postIf, hexStr r.image,
+          hexStr r.preEntrypoint, hexStr r.entrypoint, hexStr r.postEntrypoint, b01 r.stepsNil, b01 r.stepsNonEmpty, b01 r.argsNil, b01 r.envNil]
+        s!"name={hexStr m.name} desc={hexStr m.description} icon={hexStr m.branding.icon} color={hexStr m.branding.color} runs=({rs}) " ++
+        "in" ++ mapS (fun (i : String × Bool) => s!"{hexStr i.1},{b01 i.2}") (m.inputs.map fun e => (e.1, (e.2.1, e.2.2))) ++
+        " out" ++ mapS (fun (o : String) => hexStr o) m.outputs
     | none => "bad-op"
   | _ => "bad-op"
 
